@@ -105,12 +105,37 @@ class WApp:
     def get_one_message(self):
         """lazy mode: a single get_message()"""
         self.pending_gets += 1
+        d0 = self.w.get_message()
+        rec = [d0, False]
 
         def ok(m):
             self.pending_gets -= 1
+            if rec in self.open_gets:
+                self.open_gets.remove(rec)
             self._ev("msg", m)
 
-        self.w.get_message().addCallbacks(ok, self._rx_err)
+        def bad(f):
+            if rec in self.open_gets:
+                self.open_gets.remove(rec)
+            if rec[1]:
+                # we gave up waiting ourselves (a timeout): not an event of the wormhole
+                self.pending_gets -= 1
+                return None
+            return self._rx_err(f)
+        if not hasattr(self, "open_gets"):
+            self.open_gets = []
+        self.open_gets.append(rec)
+        d0.addCallbacks(ok, bad)
+
+    def give_up_one_get(self):
+        """the application stops waiting for a message it asked for (Deferred.cancel(), as addTimeout() does)"""
+        for rec in getattr(self, "open_gets", []):
+            if not rec[1]:
+                rec[1] = True
+                self.cancelled_gets = getattr(self, "cancelled_gets", 0) + 1
+                rec[0].cancel()
+                return True
+        return False
 
     def extra_get(self, what):
         """an additional get_*() at an arbitrary time; must fire or fail, never hang"""
